@@ -1,6 +1,8 @@
 import TTV.Model.Conc
 import TTV.Spec.C12
 import TTV.Lemmas.Conc
+import TTV.Lemmas.TfrSkel
+import TTV.Generated.TfrSkel
 /-! # C12 — ThreadsafeForwardingResult: per-test atomicity under every interleaving
 
 Property theorems (kept apart from the model).  All statements are for **every** number of threads,
@@ -21,6 +23,9 @@ every forwarder program, every fault plan and every schedule (arbitrary `List Na
 * `C12_no_deadlock`      : every reachable unfinished state has an enabled thread
 * `C12_progress`         : every enabled step consumes one micro-step, so schedules that keep picking enabled threads terminate
 * `C12_terminates`       : after any schedule, running enabled threads finishes every thread
+* `C12_src_block`, `C12_src_ctl`, `C12_src_local`, `C12_src_forward` : **tie to the source** - the block semantics `stepOp` all of
+                           the above is about is the interpretation of the control skeletons that `harness/tfrskel.py` reads out
+                           of `testtools/testresult/real.py` on every run (`TTV/Generated/TfrSkel.lean`)
 -/
 namespace TTV.Props.C12
 open TTV.Conc TTV.Spec.C12
@@ -511,6 +516,113 @@ enabled thread) ends with every thread finished and the semaphore free. -/
 theorem C12_terminates (i : Input) : (model i).finished = true ∧ (final i).sem = none := by
   obtain ⟨_, _, hfin, hsem, _, _⟩ := final_facts i
   exact ⟨by simpa [model] using hfin, hsem⟩
+
+/-- the forwarder-local state in which each operation of a program starts -/
+def locsOf (f : List Nat) : Loc → List Op → List Loc
+  | _, [] => []
+  | l, o :: os => l :: locsOf f (stepOp f l o).loc os
+
+/-! ## tie to the source: the control skeletons of `ThreadsafeForwardingResult`
+`TTV.Generated.TfrSkel.*` are produced by `harness/tfrskel.py` from `testtools/testresult/real.py` on every run; see
+`TTV/Model/TfrSkel.lean` for the skeleton type, its interpreter and what is trusted. -/
+
+/-- **C12 (source, the block)** — interpreting the skeleton of `_add_result_with_semaphore` *as found in the source*, for any
+fault plan, forwarder state, outcome kind and test: the micro-steps it performs are `acquire`, exactly the calls of
+the model's critical section (with the same calls raising), `release`; an exception leaves the method iff the model
+says the operation raised; the forwarder-local state afterwards is the model's; no unrecognised statement. -/
+theorem C12_src_block (f : List Nat) (l : Loc) (k : Kind) (id : TId) :
+    TfrSkel.interp f { kind := k, id := id } Generated.TfrSkel.addResult { loc := l } =
+      { loc := (stepOp f l (.outcome k id)).loc, steps := secSteps ((stepOp f l (.outcome k id)).sec.getD []),
+        raised := (stepOp f l (.outcome k id)).raised, bad := false } := by
+  have e : Generated.TfrSkel.addResult = TfrSkel.refAddResult := by decide
+  rw [e]; exact TfrSkel.interp_refAddResult f l k id
+
+/-- the skeleton that the source has for a control operation -/
+def srcCtl : Ctl → TfrSkel.Skel
+  | .startTestRun => Generated.TfrSkel.startTestRun
+  | .stopTestRun => Generated.TfrSkel.stopTestRun
+  | .stop => Generated.TfrSkel.stop
+  | .done => Generated.TfrSkel.done
+  | .shouldStop => Generated.TfrSkel.getShouldStop
+
+/-- **C12 (source, control calls)** — `startTestRun` / `stopTestRun` / `stop` / `done` / reading `shouldStop` as found in the
+source: `acquire · the call · release` whatever the call does (and for `startTestRun` the buffers and the clock are
+reset first), as the model's `stepOp` has it. -/
+theorem C12_src_ctl (f : List Nat) (l : Loc) (a : TfrSkel.Args) (c : Ctl) :
+    TfrSkel.interp f a (srcCtl c) { loc := l } =
+      { loc := (stepOp f l (.ctl c)).loc, steps := secSteps ((stepOp f l (.ctl c)).sec.getD []),
+        raised := (stepOp f l (.ctl c)).raised, bad := false } := by
+  cases c with
+  | startTestRun =>
+    have e : Generated.TfrSkel.startTestRun = TfrSkel.refStartTestRun := by decide
+    simp only [srcCtl, e]; exact TfrSkel.interp_refStartTestRun f l a
+  | stopTestRun =>
+    have e : Generated.TfrSkel.stopTestRun = TfrSkel.refCtl .stopTestRun := by decide
+    simp only [srcCtl, e]; exact TfrSkel.interp_refCtl f l a _ (by decide)
+  | stop =>
+    have e : Generated.TfrSkel.stop = TfrSkel.refCtl .stop := by decide
+    simp only [srcCtl, e]; exact TfrSkel.interp_refCtl f l a _ (by decide)
+  | done =>
+    have e : Generated.TfrSkel.done = TfrSkel.refCtl .done := by decide
+    simp only [srcCtl, e]; exact TfrSkel.interp_refCtl f l a _ (by decide)
+  | shouldStop =>
+    have e : Generated.TfrSkel.getShouldStop = TfrSkel.refCtl .shouldStop := by decide
+    simp only [srcCtl, e]; exact TfrSkel.interp_refCtl f l a _ (by decide)
+
+/-- **C12 (source, forwarder-local operations)** — `startTest`, `stopTest`, `tags`, `time` as found in the source touch no
+shared object, cannot raise, and leave the local state the model's `stepOp` computes (start time taken at
+`startTest`, tags merged into the test's or the run's buffer according to `_in_test`, test tags dropped at `stopTest`). -/
+theorem C12_src_local (f : List Nat) (l : Loc) :
+    (∀ id, TfrSkel.interp f { id := id } Generated.TfrSkel.startTest { loc := l } = { loc := (stepOp f l (.startTest id)).loc })
+    ∧ (∀ id, TfrSkel.interp f { id := id } Generated.TfrSkel.stopTest { loc := l } = { loc := (stepOp f l (.stopTest id)).loc })
+    ∧ (∀ new gone, TfrSkel.interp f { new := new, gone := gone } Generated.TfrSkel.tags { loc := l }
+          = { loc := (stepOp f l (.tags new gone)).loc })
+    ∧ (∀ t, TfrSkel.interp f { time := t } Generated.TfrSkel.time { loc := l } = { loc := (stepOp f l (.time t)).loc }) := by
+  have e1 : Generated.TfrSkel.startTest = TfrSkel.refStartTest := by decide
+  have e2 : Generated.TfrSkel.stopTest = TfrSkel.refStopTest := by decide
+  have e3 : Generated.TfrSkel.tags = TfrSkel.refTags := by decide
+  have e4 : Generated.TfrSkel.time = TfrSkel.refTime := by decide
+  rw [e1, e2, e3, e4]
+  exact ⟨TfrSkel.interp_refStartTest f l, TfrSkel.interp_refStopTest f l, TfrSkel.interp_refTags f l, TfrSkel.interp_refTime f l⟩
+
+/-- **C12 (source, which outcome goes where)** — each `add*` method hands its own method of the target to
+`_add_result_with_semaphore` (so the outcome call of the block is the outcome that was reported), the unsuccessful ones then
+consult `failfast` (unset in C12's domain); `_any_tags`, `TestResult._now`, the clock reset of `TestResult.startTestRun`, the
+`shouldStop` property and `_stop_if_failfast` are the code the model's `anyTags` / `Loc.nowT` / `stepOp` transcribe. -/
+theorem C12_src_forward :
+    Generated.TfrSkel.forward = TfrSkel.refForward
+    ∧ Generated.TfrSkel.anyTagsIsEitherNonEmpty = true ∧ Generated.TfrSkel.nowIsLastTimeOrWallClock = true
+    ∧ Generated.TfrSkel.startTestRunClearsClock = true ∧ Generated.TfrSkel.shouldStopIsTheGuardedGetter = true
+    ∧ Generated.TfrSkel.stopIfFailfastIsGuardedStop = true := by decide
+
+/-- every micro-step list the model runs is made of interpreted source blocks: the steps of a thread are the
+concatenation, over its operations, of the steps the source skeleton of that operation performs -/
+theorem C12_src_thread_steps (f : List Nat) : ∀ (ops : List Op) (l : Loc),
+    progSteps (sections f l ops).1 =
+      (ops.zip (locsOf f l ops)).flatMap fun p =>
+        match p.1 with
+        | .outcome k id => (TfrSkel.interp f { kind := k, id := id } Generated.TfrSkel.addResult { loc := p.2 }).steps
+        | .ctl c => (TfrSkel.interp f {} (srcCtl c) { loc := p.2 }).steps
+        | _ => []
+  | [], _ => by simp [sections, progSteps, locsOf]
+  | o :: os, l => by
+      have ih := C12_src_thread_steps f os (stepOp f l o).loc
+      simp only [sections, locsOf, List.zip_cons_cons, List.flatMap_cons]
+      rw [← ih]
+      cases o with
+      | outcome k id =>
+        dsimp only
+        rw [C12_src_block]
+        obtain ⟨s, hs, _⟩ := stepOp_outcome f l k id
+        simp [hs, progSteps]
+      | ctl c =>
+        dsimp only
+        rw [C12_src_ctl]
+        simp [stepOp, progSteps]
+      | time t => simp [stepOp]
+      | tags a b => simp [stepOp]
+      | startTest i => simp [stepOp]
+      | stopTest i => simp [stepOp]
 
 /-! ## non-vacuity -/
 
